@@ -80,18 +80,27 @@ class Namer:
         self.n = 0
 
     def fresh(self, hint=""):
+        """one Hypothesis draw per name (names are the most frequent choice; the drawn integer is decoded)"""
         g = self.g
-        for _ in range(20):
-            k = g.i(0, 9)
+        for _ in range(6):
+            r = g.i(0, (1 << 24) - 1)
+            k = r % 10
+            r //= 10
             if k == 0:
-                base = g.pick(KWISH) + g.pick(SYL)
+                base = KWISH[r % len(KWISH)] + SYL[(r // 16) % len(SYL)]
             elif k == 1:
-                base = g.pick("abcdefghijklmnopqrstuvwxyz")
+                base = "abcdefghijklmnopqrstuvwxyz"[r % 26]
             else:
-                base = "".join(g.pick(SYL) for _ in range(g.i(1, 4)))
-            if g.i(0, 9) < 3:
-                base += g.pick(["_1", "2", "_x", "_long_suffix_part", "0", "_a_b"])
-            if hint and g.i(0, 3) == 0:
+                n = 1 + (r % 4)
+                r //= 4
+                base = ""
+                for _j in range(n):
+                    base += SYL[r % len(SYL)]
+                    r //= len(SYL)
+            r //= 1024
+            if r % 10 < 3:
+                base += ["_1", "2", "_x", "_long_suffix_part", "0", "_a_b"][(r // 10) % 6]
+            if hint and (r // 64) % 4 == 0:
                 base = hint + "_" + base
             if base.upper() in KEYWORDS or base in self.used or not base[0].isalpha():
                 continue
